@@ -908,6 +908,51 @@ def g19_self_touching_pair(rng):
     return (a, b) if rng.random() < 0.6 else (b, a)
 
 
+def g21_overlap_after_inexact_cut_pair(rng):
+    """a lattice triangle A with an edge on a line L, and an operand B of two parts: a triangle whose edge lies
+    on L and starts strictly inside A's edge (collinear partial overlap), and a small triangle that crosses
+    A's edge earlier, at a rational, non-representable point - so the overlap is handled on a sub-segment
+    whose left end was rounded (seed C06-5)"""
+    for _try in range(200):
+        dx, dy = rng.randint(2, 4), rng.randint(-3, 3)
+        if math.gcd(dx, abs(dy)) != 1:
+            continue
+        m = rng.randint(3, 6)
+        j = rng.randint(2, m - 1)
+        n = rng.choice([m, m + 1, m + 2, m - 1]) if m - 1 > j else rng.choice([m, m + 1])
+        if n <= j:
+            continue
+        side = rng.choice([1, -1])
+        a3 = (rng.randint(0, m * dx), side * rng.randint(2, 8) + (rng.randint(0, m) * dy))
+        def above(p):      # sign of the position relative to the line through (0,0) with direction (dx,dy)
+            return dx * p[1] - dy * p[0]
+        if above(a3) == 0:
+            continue
+        a = [[[(0, 0), (m * dx, m * dy), a3, (0, 0)]]]
+        b1, b2 = (j * dx, j * dy), (n * dx, n * dy)
+        b3 = (rng.randint(j * dx, n * dx + 2), rng.choice([1, -1]) * rng.randint(2, 8) + rng.randint(j, n) * dy)
+        if above(b3) == 0:
+            continue
+        # the small part: x strictly between 0 and j*dx, one vertex on one side of L, two on the other
+        xs = [rng.randint(1, j * dx - 1) for _ in range(3)]
+        def yon(x, off):
+            return Fraction(dy * x, dx).__floor__() + off
+        t1 = (xs[0], yon(xs[0], rng.randint(1, 3)))
+        t2 = (xs[1], yon(xs[1], -rng.randint(1, 3)))
+        t3 = (xs[2], yon(xs[2], -rng.randint(1, 3)))
+        if above(t1) <= 0 or above(t2) >= 0 or above(t3) >= 0:
+            continue
+        if (t2[0] - t1[0]) * (t3[1] - t1[1]) - (t2[1] - t1[1]) * (t3[0] - t1[0]) == 0:
+            continue
+        if max(t1[0], t2[0], t3[0]) >= min(b1[0], b3[0]):
+            continue
+        b = [[[b1, b2, b3, b1]], [[t1, t2, t3, t1]]]
+        if rng.random() < 0.5:
+            b.reverse()
+        return (a, b) if rng.random() < 0.5 else (b, a)
+    return g17_vertex_on_edge_pair(rng)
+
+
 FAMILIES = {
     "g1": g1_pair,
     "g2": g2_pair,
@@ -928,6 +973,7 @@ FAMILIES = {
     "g19": g19_self_touching_pair,
     "g5f32": g5f32_pair,
     "g20": g20_f32_vertex_near_edge_pair,
+    "g21": g21_overlap_after_inexact_cut_pair,
 }
 # families on which all arithmetic is exact by construction / usually exact / never exact
 EXACT_FAMILIES = {"g1", "g10", "g12", "g13", "g14", "g15", "g16", "g18"}
